@@ -18,9 +18,10 @@ struct Case {
 /// traffic with asynchronous persistence, disconnections, force closes and mined blocks
 fn weights() -> OpWeights {
 	OpWeights {
-		send: 26,
+		send: 22,
+		send_blinded: 9,
 		claim: 12,
-		fail: 5,
+		fail: 7,
 		deliver: 40,
 		flush: 4,
 		events: 12,
@@ -130,19 +131,54 @@ struct TwinCase {
 }
 
 fn suffix_weights() -> OpWeights {
-	OpWeights { send: 30, claim: 22, fail: 7, events: 4, forwards: 4, disconnect: 3, setfee: 2, timer: 2, async_toggle: 3, pump: 6, force_close: 4, mine: 12, ..OpWeights::zero() }
+	OpWeights { send: 24, send_blinded: 8, claim: 22, fail: 9, events: 4, forwards: 4, disconnect: 3, setfee: 2, timer: 2, async_toggle: 3, pump: 6, force_close: 4, mine: 12, ..OpWeights::zero() }
 }
 
 /// prefix profile that leaves the forwarding node of a line with monitor updates in flight while HTLCs are
 /// being committed (forwards / failures / channel messages parked in the channel until the update completes)
 fn async_heavy_weights() -> OpWeights {
-	OpWeights { send: 30, claim: 8, fail: 3, deliver: 55, flush: 2, events: 8, forwards: 16, disconnect: 1, reconnect: 4, setfee: 1, async_toggle: 16, complete: 4, pump: 3, ..OpWeights::zero() }
+	OpWeights { send: 24, send_blinded: 9, claim: 8, fail: 5, deliver: 55, flush: 2, events: 8, forwards: 16, disconnect: 1, reconnect: 4, setfee: 1, async_toggle: 16, complete: 4, pump: 3, ..OpWeights::zero() }
 }
 
 /// (Reorganisations are left to the other parts: when a reorg un-does an on-chain HTLC resolution, a reloaded
 /// manager re-derives the already failed-and-forgotten payment from the monitor on start-up, the running one
 /// does not; that is start-up reconciliation, not serialization.)
+/// The recipient at the end of a line holds a payment that arrived over a blinded path and an ordinary one, removes
+/// both (the blinded one can only be failed with update_fail_malformed_htlc) and is written before its peer has
+/// acknowledged the removals.
+fn twin_blinded_removals() -> impl Strategy<Value = TwinCase> {
+	(
+		world_spec(vec![Topology::Line3]),
+		proptest::collection::vec((proptest::bool::weighted(0.5), amt_strategy()), 2..5),
+		proptest::collection::vec((any::<u16>(), proptest::bool::weighted(0.7)), 2..5),
+		proptest::collection::vec(op_strategy(OpWeights { deliver: 10, ..OpWeights::zero() }), 0..3),
+		proptest::collection::vec(op_strategy(suffix_weights()), 3..14),
+	)
+		.prop_map(|(mut spec, sends, removals, extra, suffix)| {
+			spec.max_accepted = spec.max_accepted.max(10);
+			spec.inflight_pct = 100;
+			spec.dust_exposure_fixed_msat = None;
+			let mut prefix = vec![];
+			for (i, (blinded, amt)) in sends.into_iter().enumerate() {
+				// at least one of each kind
+				let blinded = if i == 0 { true } else if i == 1 { false } else { blinded };
+				prefix.push(if blinded { Op::SendBlinded { route: 0, amt } } else { Op::Send { route: 0, amt } });
+			}
+			prefix.extend([Op::Pump, Op::Pump, Op::Pump]);
+			for (pay, fail) in removals {
+				prefix.push(if fail { Op::FailBack { pay } } else { Op::Claim { pay } });
+			}
+			prefix.push(Op::Forwards { node: 60_000 });
+			prefix.extend(extra);
+			TwinCase { spec, prefix, node: 60_000, suffix }
+		})
+}
+
 fn twin_strat() -> impl Strategy<Value = TwinCase> {
+	prop_oneof![7 => twin_strat_general().boxed(), 1 => twin_blinded_removals().boxed()]
+}
+
+fn twin_strat_general() -> impl Strategy<Value = TwinCase> {
 	proptest::bool::weighted(0.4).prop_flat_map(|heavy| {
 		let (w, topos, node) = if heavy { (async_heavy_weights(), vec![Topology::Line3], (30_000u16..35_000).boxed()) } else { (OpWeights { reorg: 0, ..weights() }, vec![Topology::Pair, Topology::Line3, Topology::Line3], any::<u16>().boxed()) };
 		(world_spec(topos), proptest::collection::vec(op_strategy(w), 8..45), node, proptest::collection::vec(op_strategy(suffix_weights()), 3..14)).prop_map(|(spec, prefix, node, suffix)| TwinCase { spec, prefix, node, suffix })
@@ -212,6 +248,15 @@ fn twin_inner(c: &TwinCase, ctx: &mut Ctx, a: &mut Sim, b: &mut Sim) -> CaseResu
 	ctx.label_if(inflight, "at-write:monitor-update-in-flight");
 	ctx.label_if(closed_pending, "at-write:onchain-claims-pending");
 	ctx.label_if(queued, "at-write:messages-in-flight");
+	ctx.label_if(tags.iter().any(|t| *t == "send-blinded"), "prefix:blinded-payment");
+	{
+		// an inbound HTLC the node removed with update_fail_malformed_htlc (the last hop of a blinded path failing
+		// the payment) whose removal the peer has not yet acknowledged
+		use lightning::ln::channel_state::InboundHTLCStateDetails;
+		let removing = chans.iter().flat_map(|d| d.pending_inbound_htlcs.iter()).filter(|h| h.state == Some(InboundHTLCStateDetails::AwaitingRemoteRevokeToRemoveFail)).count();
+		ctx.label_if(removing > 0, "at-write:inbound-htlc-failure-awaiting-revocation");
+		ctx.label_if(removing > 1, "at-write:several-inbound-failures-awaiting-revocation");
+	}
 	let ma = fork_mark(a);
 	let mb = fork_mark(b);
 	a.c12_bounce(x, &c.spec);
